@@ -339,6 +339,9 @@ func (r *Runner) unsetElem(name, sub string) bool {
 	if n, v := vr.Resolve(r.writeEnv); n != "" {
 		name, vr = n, v
 	}
+	// Like a naked "foo[i]=bar", if we inherited a local var from a parent
+	// function we are modifying the parent's var, not creating a new local.
+	vr.Local = false
 	switch vr.Kind {
 	case expand.Indexed:
 		if sub == "@" || sub == "*" {
